@@ -211,7 +211,7 @@ func mutateBytes(r *vlib.R, in []byte) []byte {
 
 func runC12(tier string, _ []string) int {
 	c := vlib.NewCtx("C12", tier, "exploration")
-	c.SetRule("round trips: PRNG points/nodes (hostile strings, float bit patterns incl. NaN payloads, wire-range times, data nil/empty/random) through ToPb/PbDecodePoints, ToPb/PbDecodeNode, Nodes.ToPb/PbDecodeNodes, hand-wrapped NodeRequest/NodesRequest; 2-6 encodings (half of them above 4 KiB) made in a row from 12 goroutines and decoded only afterwards; distinct = (codec, count of points, field classes present). decoders: random bytes and mutations (truncate, flip, set, insert, delete, splice, huge varint) of valid encodings (incl. bare 17-20 byte serial frames of every documented subject) into all 9 decoders + 4 subject parsers, a known good message decoded again afterwards (must still be itself); distinct = (decoder, outcome class, input length bucket)")
+	c.SetRule("round trips: PRNG points/nodes (hostile strings, float bit patterns incl. NaN payloads, wire-range times, data nil/empty/random) through ToPb/PbDecodePoints, ToPb/PbDecodeNode, Nodes.ToPb/PbDecodeNodes, hand-wrapped NodeRequest/NodesRequest, the four bus message decoders (origin equal to the node / parent id in the subject included); 2-6 encodings (half of them above 4 KiB) made in a row from 12 goroutines and decoded only afterwards; distinct = (codec, count of points, field classes present). decoders: random bytes and mutations (truncate, flip, set, insert, delete, splice, huge varint) of valid encodings (incl. bare 17-20 byte serial frames of every documented subject) into all 9 decoders + 4 subject parsers, a known good message decoded again afterwards (must still be itself); distinct = (decoder, outcome class, input length bucket)")
 	c.Assume("times limited to 0001..9999 (wire range); tombstone within int32 (wire type)")
 	nRT := c.N(30000, 1500000)
 	nDec := c.N(100000, 5000000)
@@ -344,6 +344,29 @@ func runC12(tier string, _ []string) int {
 					c.Violate("wire:node-field-changed", fmt.Sprintf("nodes round trip: entry %d of a list in which entries share an id came back with other content (points %s, edge points %s)", k, pointsDiff(want.Points, g.Points), pointsDiff(want.EdgePoints, g.EdgePoints)), map[string]any{"id": want.ID, "points": witnessPoints(want.Points), "first_entry_points": witnessPoints(first.Points)})
 					return
 				}
+			}
+			// the bus message decoders (subject + payload) return the payload's points untouched, whatever the
+			// relation between a point's origin and the ids in the subject
+			if len(pts) > 0 {
+				mid, mpar := "n"+r.Ident(4), "p"+r.Ident(4)
+				mp := append(data.Points{}, pts...)
+				mp[r.Intn(len(mp))].Origin = []string{mid, mpar, "", "other"}[r.Intn(4)]
+				mb, _ := mp.ToPb()
+				id1, got1, err1 := client.DecodeNodePointsMsg(&nats.Msg{Subject: "p." + mid, Data: mb})
+				id2, par2, got2, err2 := client.DecodeEdgePointsMsg(&nats.Msg{Subject: "p." + mid + "." + mpar, Data: mb})
+				up3, id3, got3, err3 := client.DecodeUpNodePointsMsg(&nats.Msg{Subject: "up." + mpar + "." + mid, Data: mb})
+				up4, id4, par4, got4, err4 := client.DecodeUpEdgePointsMsg(&nats.Msg{Subject: "up.x." + mid + "." + mpar, Data: mb})
+				if err1 != nil || err2 != nil || err3 != nil || err4 != nil || id1 != mid || id2 != mid || par2 != mpar || up3 != mpar || id3 != mid || up4 != "x" || id4 != mid || par4 != mpar {
+					c.Violate("wire:message-decoder-wrong-ids", fmt.Sprint("a well-formed bus message is decoded with wrong ids or an error: ", err1, err2, err3, err4, id1, id2, par2, up3, id3, up4, id4, par4), witnessPoints(mp))
+					return
+				}
+				for which, got := range map[string]data.Points{"DecodeNodePointsMsg": got1, "DecodeEdgePointsMsg": got2, "DecodeUpNodePointsMsg": got3, "DecodeUpEdgePointsMsg": got4} {
+					if d := pointsDiff(mp, got); d != "" {
+						c.Violate("wire:point-field-changed", which+" changed "+d+" of a point on its way from the message to the caller", map[string]any{"node": mid, "parent": mpar, "points": witnessPoints(mp)})
+						return
+					}
+				}
+				c.Count("message_decoder_round_trips", 1)
 			}
 			// NodeRequest{node=1}, NodesRequest{nodes=1 repeated}
 			req := pbBytesField(nil, 1, nb)
